@@ -16,7 +16,8 @@ BUDGET_S = {'quick': 150, 'thorough': 1500}
 BOUNDS = {
     'quick': 'universe U7; programs BF(t, mode)[BF(t2, mode)] and BF;BF with every success/failure mode, nest <= 2; '
              'full probe (8 query kinds x 9 paths) at function start, after the nested body, after the write, and after '
-             'every statement; histories B and B.M.B (stale outputs, stale directories, foreign files, swaps)',
+             'every statement; histories B and B.M.B (stale outputs, stale directories, foreign files, swaps); a failed (caught) '
+             'build_file whose path a later build_file of the same build uses as a directory (S1)',
     'thorough': 'universe U9, nest <= 3, three-build histories',
 }
 ASSUMPTIONS = [
@@ -40,6 +41,7 @@ def families(tier):
         {'name': 'swap', 'params': {'hist': 'BMB', 'mut_paths': ['o', 'o/d'], 'mut_kinds': ['rmtree', 'delete', 'dir2file']}, 'weight': 2},
         {'name': 'N3', 'params': {'hist': 'BB', 'universe': UN3, 'kinds': ['is_dir'], 'roles': ['o'],
                                   'bf_modes': ['ok', 'raise_after']}, 'weight': 3},
+        {'name': 'S1', 'params': {'hist': 'BB'}, 'weight': 1},
     ]
     if tier == 'quick':
         return q
@@ -70,6 +72,9 @@ def programs(eng, fam, P):
         return ([b1, b2] if first == 0 else [b2, b1]), ['o/d', 'o/d/g']
     if fam == 'N3':
         return skeleton(eng, 'N3', P), ['o/w', 'o/m/x', 'o/d/g']
+    if fam == 'S1':
+        # within one build: a (failing, caught) build_file on a path that a later build_file uses as a directory
+        return skeleton(eng, 'S1', P), ['o/d', 'o/d/g']
     if fam == 'nest3':
         return [[('BF', 'o/d/g', bf_opts(eng, '0', modes, catch=True),
                   [('SB', 's', {'catch': True}, [('BF', 'o/d/e/h', bf_opts(eng, '1', modes, catch=True),
